@@ -267,11 +267,17 @@ def sym_object(P, cls, name='o', depth=0):
     if issubclass(cls, ArrayBase):
         items = make_vector_items(P, cls, name + '_items', depth)
         return I.construct(cls, [items], {})
-    if not attr.has(cls):
+    from cryptoparser.common.base import VariantParsableBase
+    if issubclass(cls, VariantParsableBase):
+        types = list(cls._get_variant_types())
+        inner = make_one_of(P, types, name + '_variant', depth + 1)
+        return I.construct(cls, [inner], {})
+    if not attr.has(cls) and not any((k.__name__, p) in HINTS for k in type.mro(cls)
+                                     for p in list(inspect.signature(cls.__init__).parameters)[1:]):
         raise E.Unsupported('%s is not an attrs class (constructor signature needs a hint)' % cls.__name__)
     init = cls.__dict__.get('__init__') or I.class_lookup(cls, '__init__')[0]
     kwargs = {}
-    if I.is_attrs_generated(init):
+    if attr.has(cls) and I.is_attrs_generated(init):
         for a in attr.fields(cls):
             if not a.init:
                 continue
